@@ -12,27 +12,7 @@
 (*             bpms, type, desc, diff, meter, radar]; notes [t, c], long    *)
 (*             notes [t, c, n], tempo points [t, bl]                        *)
 (***************************************************************************)
-EXTENDS Integers, Sequences, FiniteSets
-
-Abs(x) == IF x < 0 THEN -x ELSE x
-Max2(a, b) == IF a > b THEN a ELSE b
-
-(* A/4800 beats at bl ticks per beat, without leaving 32 bits *)
-Mul4800(A, bl) == (A \div 4800) * bl + ((A % 4800) * bl) \div 4800
-
-(* time of tempo change k *)
-RECURSIVE TStart(_, _, _)
-TStart(bpms, off, k) ==
-    IF k = 1 THEN off ELSE TStart(bpms, off, k-1) + Mul4800(bpms[k].p - bpms[k-1].p, bpms[k-1].bl)
-
-(* absolute beat W + num/den  ->  ticks *)
-SegOf(bpms, W, num, den) ==
-    LET S == { k \in DOMAIN bpms : bpms[k].p * den <= (W * den + num) * 4800 }
-    IN  IF S = {} THEN 1 ELSE CHOOSE k \in S : \A j \in S : j <= k
-BeatToTicks(bpms, off, W, num, den) ==
-    LET k == SegOf(bpms, W, num, den)
-    IN  TStart(bpms, off, k) + Mul4800(W * 4800 - bpms[k].p, bpms[k].bl) + (num * bpms[k].bl) \div den
-BlAt(bpms, W, num, den) == bpms[SegOf(bpms, W, num, den)].bl
+EXTENDS BeatTime
 
 (* row r (0-based) of a measure m (0-based) with n rows is at beat 4m + 4r/n *)
 RowTicks(bpms, off, m, r, n) == BeatToTicks(bpms, off, 4 * m + (4 * r) \div n, (4 * r) % n, n)
